@@ -58,7 +58,7 @@ func main() {
 	}
 
 	load := func(goos string) *Prog {
-		p, err := Load(*repo, goos, true)
+		p, err := Load(*repo, goos, false)
 		if err != nil {
 			id := *prop
 			if id == "" {
@@ -122,7 +122,7 @@ func main() {
 	extra := map[string]any{}
 	if *tier == "thorough" {
 		// second build: the !linux files (pkg/clock/host_generic.go)
-		p2, err := Load(*repo, "darwin", true)
+		p2, err := Load(*repo, "darwin", false)
 		if err != nil {
 			fmt.Printf("UNDECIDED property=%s reason=darwin build: %v\n", spec.ID, err)
 			os.Exit(2)
@@ -162,7 +162,7 @@ func doReplay(path, repo, verif string) int {
 		fmt.Fprintln(os.Stderr, err)
 		return 2
 	}
-	p, err := Load(repo, doc.GOOS, true)
+	p, err := Load(repo, doc.GOOS, false)
 	if err != nil {
 		fmt.Printf("UNDECIDED property=%s reason=%v\n", doc.Property, err)
 		return 2
